@@ -304,6 +304,20 @@ def gen_ix(c09, rng, tgt, stats, cs_active, reserve_only=False):
     if reserve_only and kind[1] == 80:
         kind = IX_KINDS[rng.randrange(0, 5)]        # DT on 32-bit units: 80 bits are not a whole number of units (not generated)
     op, bits, intOK, flt = kind
+    if not reserve_only and bits <= 8 and rng.random() < 0.15:
+        # lane sweep of the packers (DN: 2 per byte / 4 per 16-bit unit, DB: 2 per 16-bit unit): a flat list of elements, a boundary
+        # value (negative limit, -1, unsigned limit) at a chosen position inside the packed unit, the neighbours random
+        n = rng.choice([2, 3, 4, 4, 5, 6, 8])
+        lo, hi = -(1 << (bits - 1)), (1 << bits) - 1
+        args = [("i", rng.randrange(lo, hi + 1)) for _ in range(n)]
+        p = rng.randrange(n)
+        args[p] = ("i", rng.choice([lo, lo, -1, -1, hi, (1 << (bits - 1)) - 1, 1 << (bits - 1), lo + 1]))
+        if cs_active and bits == 8 and rng.random() < 0.4:
+            args[rng.randrange(n)] = ("s", rand_string(rng, 3))
+        stats["ix:sweep_%s_%s_at_%d_mod_%d" % (op, "neg" if args[p][0] == "i" and args[p][1] < 0 else "other", p % (16 // bits if g > 1 else 8 // bits), (16 // bits if g > 1 else max(1, 8 // bits)))] += 1
+        stats["ix:const_stmt"] += 1
+        stats["ix:%s@gran%d" % (op, g)] += 1
+        return dict(k="IX", op=op, bits=bits, intOK=intOK, flt=flt, args=args)
     reserve = reserve_only or rng.random() < (0.4 if g > 1 or bits == 4 else 0.12)
     st = dict(k="IX", op=op, bits=bits, intOK=intOK, flt=flt, args=[])
     bad = rng.random() < 0.12
